@@ -51,10 +51,10 @@ def mapped(name, kt, n, eps=1, epsrec=1, ord_hi=None, tiers=Q, timeout=900):
                        'file/mmap layer replaced by a pointer to the array (accessor hook)' % (n, kt, '' if ord_hi is None else ' with ordinals 0..%d' % ord_hi, eps, epsrec))
 
 
-def md(name, mode, npts, cmax, eps=1, epsrec=1, exact=True, tiers=Q, timeout=900, miss=1):
+def md(name, mode, npts, cmax, eps=1, epsrec=1, exact=True, tiers=Q, timeout=900, miss=1, mem_gb=14):
     d = dict(CT='uint32_t', CT_U='unsigned int', MAXPTS=npts, NPTS_MIN=npts if exact else 1, CMAX=cmax, MODE=mode, EPS=eps, EPSREC=epsrec,
              VERIF_VEC_CAP=npts + 4, PGM_INDEX_VERIF_MISS_THRESHOLD=miss)
-    return dict(name=name, unit='multidim.cpp', harness='h_md.c', defs=d, narrow=16, timeout=timeout, tiers=tiers,
+    return dict(name=name, unit='multidim.cpp', harness='h_md.c', defs=d, narrow=16, timeout=timeout, tiers=tiers, mem_gb=mem_gb,
                 bounds='%s %d points in 2 dimensions, coordinates 0..%d (uint32 Morton codes), duplicates allowed, Epsilon=%d, EpsilonRecursive=%d, '
                        'miss_threshold=%d (hook) so that the bigmin skip path runs at this size; %s'
                        % ('exactly' if exact else 'up to', npts, cmax, eps, epsrec, miss, 'every query point' if mode == 0 else 'every box with min <= max'))
@@ -135,12 +135,12 @@ JOBS['C03'] += [mkseg('mkseg_n2_e0', 2, 0), mkseg('mkseg_n2_e1', 2, 1), mkseg('m
 JOBS['C04'] = [pla('pla_max_k3_e%d_x15' % e, 3, epsfix=e, xmax=15, ymax=6) for e in (0, 1)] + [pla('pla_max_k3_e2_x7', 3, epsfix=2, xmax=7, ymax=12)] + \
               [pla('pla_max_k3_e1_x63', 3, epsfix=1, xmax=63, ymax=6, tiers=T, timeout=3000)]
 JOBS['C14'] = [md('md_contains_n1', 0, 1, 3), md('md_contains_n2', 0, 2, 3)]
-JOBS['C13'] = [md('md_range_n1', 1, 1, 3), md('md_range_n2', 1, 2, 3), md('md_range_n3_skip', 1, 3, 3, miss=0, epsrec=0, timeout=1800), md('md_range_n4_skip', 1, 4, 3, miss=0, tiers=T, timeout=3000)]
+JOBS['C13'] = [md('md_range_n1', 1, 1, 3), md('md_range_n2', 1, 2, 3), md('md_range_n3_skip', 1, 3, 1, miss=0, epsrec=0, timeout=3000, tiers=T, mem_gb=40), md('md_range_n4_skip', 1, 4, 3, miss=0, tiers=T, timeout=3000)]
 JOBS['C05'] = [dyn('dyn_q_noidx_b0_o2', 0, 0, 2, idxl=10), dyn('dyn_q_noidx_b0_o3', 0, 0, 3, idxl=10), dyn('dyn_q_noidx_b0_o4', 0, 0, 4, idxl=10, tiers=T, timeout=3000, mem_gb=40)]
 JOBS['C06'] = [dyn('dyn_it_noidx_b0_o2', 1, 0, 2, idxl=10), dyn('dyn_rng_noidx_b0_o2', 3, 0, 2, idxl=10), dyn('dyn_lbit_noidx_b0_o2', 4, 0, 2, idxl=10), dyn('dyn_it_noidx_b0_o4', 1, 0, 4, idxl=10, tiers=T, timeout=3000)]
 JOBS['C15'] = [dyn('dyn_inv_noidx_b0_o2', 2, 0, 2, idxl=10), dyn('dyn_inv_noidx_b0_o3', 2, 0, 3, idxl=10), dyn('dyn_inv_noidx_b0_o4', 2, 0, 4, idxl=10, tiers=T, timeout=3000, mem_gb=40)]
 JOBS['C05'] += [dynstep('dynstep_q_310', 0, 3, 1, 0), dynstep('dynstep_q_321', 0, 3, 2, 1, tiers=T, timeout=3000, mem_gb=40)]
-JOBS['C06'] += [dynstep('dynstep_it_310', 1, 3, 1, 0), dynstep('dynstep_rng_310', 3, 3, 1, 0), dynstep('dynstep_it_321', 1, 3, 2, 1, tiers=T, timeout=3000, mem_gb=40)]
+JOBS['C06'] += [dynstep('dynstep_it_310', 1, 3, 1, 0, tiers=T, timeout=3000, mem_gb=40), dynstep('dynstep_rng_310', 3, 3, 1, 0, tiers=T, timeout=3000, mem_gb=40)]
 JOBS['C15'] += [dynstep('dynstep_inv_322', 2, 3, 2, 2)]
 JOBS['C11'] = [mapped('mapped_u8_n2', 'uint8_t', 2), mapped('mapped_i8_n2', 'int8_t', 2), mapped('mapped_u8_n3_dense', 'uint8_t', 3, ord_hi=3), mapped('mapped_i8_n3', 'int8_t', 3, tiers=T, timeout=3000)]
 
